@@ -2,6 +2,7 @@ package main
 
 import (
 	"bytes"
+	"compress/flate"
 	"fmt"
 	"io"
 	"strings"
@@ -160,6 +161,63 @@ func c18x(c *ctx) {
 					}
 					emit("flatewriter", h, key, reused, fresh, map[string]interface{}{"chunks": ch, "dest": vh.Ints(d1), "flushErr": ferr})
 				}
+			}
+		}
+	}
+	// ---------------- wsflate.Writer / Reader over compress/flate (flate.Writer is a WriteResetter)
+	for _, level := range []int{-2, 1, 9} {
+		for hi, hist := range []string{"none", "message", "unflushed", "closed", "desterr"} {
+			for mi, msg := range [][]byte{{}, []byte("x"), bytes.Repeat([]byte("hello "), 40), vh.PBytes(8, 0, 3000)} {
+				key := fmt.Sprintf("flatereal/%d/%s/%d", level, hist, mi)
+				if !vh.Only(key) {
+					continue
+				}
+				mk := func(dest io.Writer) *wsflate.Writer {
+					return wsflate.NewWriter(dest, func(x io.Writer) wsflate.Compressor { f, _ := flate.NewWriter(x, level); return f })
+				}
+				suffix := func(w *wsflate.Writer, dest *bytes.Buffer) (obs []string) {
+					_, e1 := w.Write(msg[:len(msg)/2])
+					_, e2 := w.Write(msg[len(msg)/2:])
+					e3 := w.Flush()
+					obs = append(obs, fmt.Sprintf("%v:%v:%v:%x", e1, e2, e3, dest.Bytes()))
+					// and what the library's own reader makes of it (a reused reader for the reused writer)
+					return
+				}
+				hd := &vh.Dest{}
+				if hist == "desterr" {
+					hd.FailAt = 1
+				}
+				w := mk(hd)
+				switch hist {
+				case "message", "closed", "desterr":
+					w.Write(bytes.Repeat([]byte("hello earlier "), 30))
+					w.Flush()
+					if hist == "closed" {
+						w.Close()
+					}
+				case "unflushed":
+					w.Write(bytes.Repeat([]byte("hello unflushed "), 300))
+				}
+				rd := &bytes.Buffer{}
+				w.Reset(rd)
+				reused := suffix(w, rd)
+				fd := &bytes.Buffer{}
+				fresh := suffix(mk(fd), fd)
+				// reader side: a reader that has read an earlier message (or failed on garbage) reads this one
+				mkr := func(src io.Reader) *wsflate.Reader {
+					return wsflate.NewReader(src, func(r io.Reader) wsflate.Decompressor { return flate.NewReader(r) })
+				}
+				r := mkr(bytes.NewReader([]byte{0xff, 0xff, 0xff}))
+				if hi%2 == 0 {
+					r = mkr(bytes.NewReader(fd.Bytes()))
+				}
+				io.ReadAll(r)
+				r.Reset(bytes.NewReader(rd.Bytes()))
+				back, err := io.ReadAll(r)
+				reused = append(reused, fmt.Sprintf("read:%v:%x", err, back))
+				back, err = io.ReadAll(mkr(bytes.NewReader(fd.Bytes())))
+				fresh = append(fresh, fmt.Sprintf("read:%v:%x", err, back))
+				emit("flatereal", hist, key, reused, fresh, map[string]interface{}{"roundtrip": bytes.Equal(back, msg) && err == nil})
 			}
 		}
 	}
